@@ -60,7 +60,11 @@ def gen_plan(rng, idx, fault_population=False):
     else:
         stems = ['f%d' % i for i in range(nfiles)]
     names = [s + '.tex' for s in stems]
-    W = docgen.Words(rng, nonascii=0.2)
+    # files in another encoding than UTF-8 (--encoding): the tracking pass and
+    # the proofreading pass both have to read them that way
+    latin1 = rng.random() < 0.12
+    W = docgen.Words(rng, nonascii=0.7, vows_all='aeiouäøï') if latin1 \
+        else docgen.Words(rng, nonascii=0.2)
     # decoy targets exist as files, so that following one is observable
     ndecoy = rng.choice([0, 1, 1, 2])
     decoys = ['decoy%d' % i for i in range(ndecoy)]
@@ -185,6 +189,14 @@ def gen_plan(rng, idx, fault_population=False):
         else:
             skip = '.*' + re.escape(stem[-1]) + '\\.tex'
     argv = ['--lt-command', 'simlt', '--include']
+    if latin1:
+        argv += ['--encoding', 'latin-1']
+        for n in files:
+            files[n]['enc'] = 'latin-1'
+            files[n]['frags'].insert(
+                1 if files[n]['frags'] and files[n]['frags'][0]['s'].startswith(
+                    '\\def') else 0,
+                docgen.frag('plain', 'Ma\xdf f\xfcr \xd6l.\n', []))
     nosp = rng.random() < 0.15
     if nosp:
         # --no-specials: LT-SKIP comments and \LTskip are inert, what stands
@@ -203,6 +215,7 @@ def gen_plan(rng, idx, fault_population=False):
         probes_hint = 'define'
     peer = {'targets': rng.sample(lit, min(len(lit), 2)), 'dup': []}
     plan = {'kind': 'shell', 'argv': argv, 'files': files, 'peer': peer,
+            'latin1': latin1,
             'names': roots, 'roots': roots, 'skip': skip, 'graph_names': names,
             'decoys': [d + '.tex' for d in decoys], 'trace_stderr': True,
             'nosp': nosp,
@@ -468,6 +481,8 @@ def evaluate(plan):
         probes['cycle'] = 1
     if '--define' in plan['argv']:
         probes['def_wrappers_from_define_file'] = 1
+    if plan.get('latin1'):
+        probes['files_in_latin1_with_encoding_option'] = 1
     if plan.get('nosp'):
         probes['no_specials'] = 1
         if any(fr['k'] == 'decoy_skip'
